@@ -150,7 +150,14 @@ def expand(acc, item, tier, seed):
     alphabet = None
     for state in states:
         rig, closed, alphabet = get_rig(cfgkey)
-        alphabet = alphabet[k_::K_]
+        if cfgkey[1] == "mixed":
+            # two passes over the WHOLE alphabet on one simulator in one process: every ordered pair of requests (r1 in pass 1,
+            # r2 in pass 2) is executed with whatever r1 left behind outside the tag store (the store itself is re-seated);
+            # slice 0 runs the alphabet forwards, slice 1 backwards (a "first use wins" cache depends on who comes first)
+            alphabet = list(alphabet) if k_ % 2 == 0 else list(reversed(alphabet))
+            alphabet = alphabet + alphabet
+        else:
+            alphabet = alphabet[k_::K_]
         if k_:
             closed = []
 
@@ -224,10 +231,11 @@ def run(ctx):
     mk = ("MIXED", "mixed", 2, "cm", False)
     mcfg = TS.config("INT", "mixed")
     mroot = tuple((name, tuple([0.0 if typ in ("REAL", "LREAL") else 0] * (1 if ln is None else ln))) for name, typ, ln, _ in mcfg)
-    acc.merge(explore.bfs(ctx, __name__, "expand", [(mk, mroot)], chunk=1, splits=2, max_depth=2 if ctx.quick else 3,
+    acc.merge(explore.bfs(ctx, __name__, "expand", [(mk, mroot)], chunk=1, splits=2, max_depth=1 if ctx.quick else 2,
                           max_states=None if ctx.quick else 4000))
     acc.counters.pop("cap_hit", None)
-    acc.note("config 'mixed' (six tags of different types) is depth-bounded (2 quick / 3 thorough); the other configurations closed")
+    acc.note("config 'mixed' (six tags of different types): from the root state (thorough: also from every state one accepted write away) "
+             "the whole cross-type alphabet is run twice forwards and twice backwards on one simulator; the other configurations closed")
     acc.count("traces_validated_against_impl", acc.counters.get("transitions", 0))
     return acc
 
